@@ -304,11 +304,91 @@ def refUpdate : PStmt := blockP [
       .ifLinkNotClosed (blockP [.write1])])]),
   .resetReference]
 
-def refIsolatedToks : List PyTok :=
-  [.forPrevJ, .clearJ, .close, .forPrevL, .clearL, .close,
-   .onesIndicator, .callSearch, .idsWhereOne, .newSets,
-   .forIds, .flagJ, .addJ, .linksOfNode, .forConnected, .flagL, .addL, .close, .close,
-   .updateModel, .keepJ, .keepL, .returnCounts]
+/-! `_get_isolated_junctions_and_links` as a program with an interpreter -/
+
+inductive IStmt
+  | skip
+  | seq (a b : IStmt)
+  | forPrevJ (b : IStmt)          -- for j in self._prev_isolated_junctions:
+  | clearJ                        -- junction = self._wn.get_node(j); junction._is_isolated = False
+  | forPrevL (b : IStmt)          -- for l in self._prev_isolated_links:
+  | clearL                        -- link = self._wn.get_link(l); link._is_isolated = False
+  | onesIndicator                 -- node_indicator = np.ones(self._wn.num_nodes, …)
+  | callSearch                    -- check_for_isolated_junctions(self._source_ids, node_indicator, indptr, indices, data, nconn)
+  | idsWhereOne                   -- isolated_junction_ids = [i for i in range(len(node_indicator)) if node_indicator[i] == 1]
+  | newSets                       -- isolated_junctions = OrderedSet(); isolated_links = OrderedSet()
+  | forIds (b : IStmt)            -- for j_id in isolated_junction_ids:
+  | flagJ                         -- j = name of j_id; junction = get_node(j); junction._is_isolated = True
+  | addJ                          -- isolated_junctions.add(j)
+  | linksOfNode                   -- connected_links = self._wn.get_links_for_node(j)
+  | forConnected (b : IStmt)      -- for l in connected_links:
+  | flagL                         -- link = get_link(l); link._is_isolated = True
+  | addL                          -- isolated_links.add(l)
+  | updateModel                   -- update_model_for_isolated_junctions_and_links(…, prev sets, new sets)
+  | keepJ                         -- self._prev_isolated_junctions = isolated_junctions
+  | keepL                         -- self._prev_isolated_links = isolated_links
+  | returnCounts
+  deriving DecidableEq, Repr
+
+def blockI : List IStmt → IStmt
+  | [] => .skip
+  | s :: r => .seq s (blockI r)
+
+structure ISt where
+  isoJ : List Bool
+  isoL : List Bool
+  ind : List Int
+  ids : List Nat
+  newJ : List Nat
+  newL : List Nat
+  curJ : Nat
+  curL : Nat
+  links : List Nat
+  prevJ : List Nat
+  prevL : List Nat
+  /-- the (previous, new) sets handed to `update_model_for_isolated_junctions_and_links` -/
+  handed : Option ((List Nat × List Nat) × (List Nat × List Nat))
+
+/-- `OrderedSet.add` -/
+def osAdd (acc : List Nat) (x : Nat) : List Nat := if x ∈ acc then acc else acc ++ [x]
+
+def execI (s : Sim) : IStmt → ISt → ISt
+  | .skip, st => st
+  | .seq a b, st => execI s b (execI s a st)
+  | .forPrevJ b, st => st.prevJ.foldl (fun st j => execI s b { st with curJ := j }) st
+  | .clearJ, st => { st with isoJ := st.isoJ.set st.curJ false }
+  | .forPrevL b, st => st.prevL.foldl (fun st l => execI s b { st with curL := l }) st
+  | .clearL, st => { st with isoL := st.isoL.set st.curL false }
+  | .onesIndicator, st => { st with ind := List.replicate s.net.n 1 }
+  | .callSearch, st => { st with ind := checkIsolated s.g s.net.sources st.ind }
+  | .idsWhereOne, st => { st with ids := (List.range st.ind.length).filter fun i => st.ind.getD i 0 == 1 }
+  | .newSets, st => { st with newJ := [], newL := [] }
+  | .forIds b, st => st.ids.foldl (fun st j => execI s b { st with curJ := j }) st
+  | .flagJ, st => { st with isoJ := st.isoJ.set st.curJ true }
+  | .addJ, st => { st with newJ := osAdd st.newJ st.curJ }
+  | .linksOfNode, st => { st with links := s.net.linksOf st.curJ }
+  | .forConnected b, st => st.links.foldl (fun st l => execI s b { st with curL := l }) st
+  | .flagL, st => { st with isoL := st.isoL.set st.curL true }
+  | .addL, st => { st with newL := osAdd st.newL st.curL }
+  | .updateModel, st => { st with handed := some ((st.prevJ, st.prevL), (st.newJ, st.newL)) }
+  | .keepJ, st => { st with prevJ := st.newJ }
+  | .keepL, st => { st with prevL := st.newL }
+  | .returnCounts, st => st
+
+def ISt.ofSim (s : Sim) : ISt :=
+  { isoJ := s.isoJ, isoL := s.isoL, ind := [], ids := [], newJ := [], newL := [], curJ := 0, curL := 0, links := [],
+    prevJ := s.prevIsoJ, prevL := s.prevIsoL, handed := none }
+
+def applyI (s : Sim) (r : ISt) : Sim := { s with isoJ := r.isoJ, isoL := r.isoL, prevIsoJ := r.prevJ, prevIsoL := r.prevL }
+
+def refIsolated : IStmt := blockI [
+  .forPrevJ (blockI [.clearJ]),
+  .forPrevL (blockI [.clearL]),
+  .onesIndicator, .callSearch, .idsWhereOne, .newSets,
+  .forIds (blockI [
+    .flagJ, .addJ, .linksOfNode,
+    .forConnected (blockI [.flagL, .addL])]),
+  .updateModel, .keepJ, .keepL, .returnCounts]
 
 /-- `_initialize_internal_graph`, as `initGraph` (with `countLinks`, `buildCsr`, `getCsrDataIndex`, `multiTable`, `initStep`) reads it -/
 def refInitToks : List PyTok :=
